@@ -501,6 +501,45 @@ def cmdLex (fields : List String) : Except String String :=
       | none => .ok "reject"
   | _ => .error "lex: expected 1 field"
 
+/-! ## wire format (Model/Frame.lean) -/
+
+def bytesHex (bs : List UInt8) : String :=
+  if bs.isEmpty then "-" else String.ofList (bs.flatMap (fun b => [hexDigit (b.toNat / 16), hexDigit (b.toNat % 16)]))
+
+def hexTok (t : String) : List UInt8 := if t = "-" then [] else hexBytes t.toList
+
+def frameErrName : FrameErr → String
+  | .unexpectedEOF => "unexpectedEOF"
+  | .malformedHeader => "malformedHeader"
+  | .badLength => "badLength"
+  | .negativeLength => "negativeLength"
+
+/-- all frames until the reader stops: bodies read so far and why it stopped -/
+def readAllFrames : Nat → List UInt8 → List (List UInt8) → List (List UInt8) × String
+  | 0, _, acc => (acc.reverse, "fuel")
+  | fuel + 1, input, acc =>
+    match readFrame input with
+    | .eof => (acc.reverse, "eof")
+    | .error e => (acc.reverse, "error:" ++ frameErrName e)
+    | .unsupported => (acc.reverse, "unsupported")
+    | .ok body rest => readAllFrames fuel rest (body :: acc)
+
+/-- `readframes <hex stream>`: `<status>\t<hex body> ...` -/
+def cmdReadFrames (fields : List String) : Except String String :=
+  match fields with
+  | [hex] =>
+      let input := hexTok hex
+      let (bodies, status) := readAllFrames (input.length + 1) input []
+      .ok (status ++ "\t" ++ " ".intercalate (bodies.map bytesHex))
+  | _ => .error "readframes: expected 1 field"
+
+/-- `encodeframes <hex body> <hex body> ...` (blank-separated): the hex of the concatenated frames -/
+def cmdEncodeFrames (fields : List String) : Except String String :=
+  match fields with
+  | [bodies] => .ok (bytesHex ((words bodies).flatMap (fun t => encodeFrame (hexTok t))))
+  | [] => .ok (bytesHex [])
+  | _ => .error "encodeframes: expected 1 field"
+
 def dispatch (cmd : String) (fields : List String) : Except String String :=
   if cmd = "exec" then cmdExec fields
   else if cmd = "reconcile" then cmdReconcile fields
@@ -511,6 +550,8 @@ def dispatch (cmd : String) (fields : List String) : Except String String :=
   else if cmd = "show" then cmdShow fields
   else if cmd = "parse" then cmdParse fields
   else if cmd = "lex" then cmdLex fields
+  else if cmd = "readframes" then cmdReadFrames fields
+  else if cmd = "encodeframes" then cmdEncodeFrames fields
   else .error s!"unknown command {cmd}"
 
 def handleLine (line : String) : String :=
